@@ -88,8 +88,8 @@ func c03Profile(variant string) func(c *sim.RunCtx) {
 			}
 			return setupOut{pp, &storeModel{cfg: pp.cfg, objs: pp.objs, byTag: map[int]*upload{}}, newMedia(pp.cfg)}
 		}
-		before := gatherMetrics().indexDiscards("sim")
-		discards := func() bool { return gatherMetrics().indexDiscards("sim") != before }
+		before := indexDiscardCount()
+		discards := func() bool { return indexDiscardCount() != before }
 
 		// reference forward run: learns the step count and yields the
 		// quiescent committed points of part B
